@@ -2055,7 +2055,9 @@ func (r *Runner) transferCapture(capnum, uncapnum, start, end int) {
 		end = start
 		start = end2
 	} else if end <= start2 {
-		start = start2
+		// the mirror image of the case above (only reachable right-to-left):
+		// the new capture is the gap between this group and the popped one
+		start, end = end, start2
 	} else {
 		if end > end2 {
 			end = end2
